@@ -209,49 +209,54 @@ Definition hex4 (i : str) : option (N * str) :=
 (** the characters of a string after the opening quote, up to and including the closing quote.
     Raw control characters are rejected; \uD800–\uDBFF must be followed by a low surrogate escape and
     the pair denotes one scalar value; a lone surrogate is rejected.  [fuel] >= length of the input. *)
+Definition cons_char (c : N) (r : option (str * str)) : option (str * str) :=
+  match r with Some (x, r') => Some (c :: x, r') | None => None end.
+
 Fixpoint parse_chars (fuel : nat) (i : str) : option (str * str) :=
   match fuel with
   | O => None
   | S fu =>
       match i with
       | [] => None
-      | 34 :: r => Some ([], r)
-      | 92 :: e :: r =>
-          let lit c := match parse_chars fu r with Some (x, r') => Some (c :: x, r') | None => None end in
-          if e =? 34 then lit 34
-          else if e =? 92 then lit 92
-          else if e =? 47 then lit 47
-          else if e =? 98 then lit 8
-          else if e =? 102 then lit 12
-          else if e =? 110 then lit 10
-          else if e =? 114 then lit 13
-          else if e =? 116 then lit 9
-          else if e =? 117 then
-            match hex4 r with
-            | Some (u, r1) =>
-                if (55296 <=? u) && (u <=? 56319) then
-                  match r1 with
-                  | 92 :: 117 :: r2 =>
-                      match hex4 r2 with
-                      | Some (l, r3) =>
-                          if (56320 <=? l) && (l <=? 57343) then
-                            match parse_chars fu r3 with
-                            | Some (x, r') => Some ((65536 + (u - 55296) * 1024 + (l - 56320)) :: x, r')
-                            | None => None
-                            end
-                          else None
-                      | None => None
-                      end
-                  | _ => None
-                  end
-                else if (56320 <=? u) && (u <=? 57343) then None
-                else match parse_chars fu r1 with Some (x, r') => Some (u :: x, r') | None => None end
-            | None => None
-            end
-          else None
       | c :: r =>
-          if c <? 32 then None
-          else match parse_chars fu r with Some (x, r') => Some (c :: x, r') | None => None end
+          if c =? 34 then Some ([], r)
+          else if c =? 92 then
+            match r with
+            | [] => None
+            | e :: r =>
+                if e =? 34 then cons_char 34 (parse_chars fu r)
+                else if e =? 92 then cons_char 92 (parse_chars fu r)
+                else if e =? 47 then cons_char 47 (parse_chars fu r)
+                else if e =? 98 then cons_char 8 (parse_chars fu r)
+                else if e =? 102 then cons_char 12 (parse_chars fu r)
+                else if e =? 110 then cons_char 10 (parse_chars fu r)
+                else if e =? 114 then cons_char 13 (parse_chars fu r)
+                else if e =? 116 then cons_char 9 (parse_chars fu r)
+                else if e =? 117 then
+                  match hex4 r with
+                  | Some (u, r1) =>
+                      if (55296 <=? u) && (u <=? 56319) then
+                        match r1 with
+                        | b :: v :: r2 =>
+                            if (b =? 92) && (v =? 117) then
+                              match hex4 r2 with
+                              | Some (l, r3) =>
+                                  if (56320 <=? l) && (l <=? 57343)
+                                  then cons_char (65536 + (u - 55296) * 1024 + (l - 56320)) (parse_chars fu r3)
+                                  else None
+                              | None => None
+                              end
+                            else None
+                        | _ => None
+                        end
+                      else if (56320 <=? u) && (u <=? 57343) then None
+                      else cons_char u (parse_chars fu r1)
+                  | None => None
+                  end
+                else None
+            end
+          else if c <? 32 then None
+          else cons_char c (parse_chars fu r)
       end
   end.
 
@@ -283,9 +288,12 @@ Section Loops.
         match pv i with
         | Some (x, r) =>
             match skip_ws r with
-            | 44 :: r' => match parse_elems m r' with Some (xs, r'') => Some (x :: xs, r'') | None => None end
-            | 93 :: r' => Some ([x], r')
-            | _ => None
+            | sep :: r' =>
+                if sep =? 44 then
+                  match parse_elems m r' with Some (xs, r'') => Some (x :: xs, r'') | None => None end
+                else if sep =? 93 then Some ([x], r')
+                else None
+            | [] => None
             end
         | None => None
         end
@@ -297,66 +305,73 @@ Section Loops.
     | O => None
     | S m =>
         match skip_ws i with
-        | 34 :: r =>
-            match parse_chars len r with
-            | Some (k, r1) =>
-                match skip_ws r1 with
-                | 58 :: r2 =>
-                    match pv r2 with
-                    | Some (x, r3) =>
-                        match skip_ws r3 with
-                        | 44 :: r4 => match parse_members m r4 with
-                                      | Some (xs, r5) => Some ((k, x) :: xs, r5)
-                                      | None => None
-                                      end
-                        | 125 :: r4 => Some ([(k, x)], r4)
-                        | _ => None
+        | q :: r =>
+            if q =? 34 then
+              match parse_chars len r with
+              | Some (k, r1) =>
+                  match skip_ws r1 with
+                  | colon :: r2 =>
+                      if colon =? 58 then
+                        match pv r2 with
+                        | Some (x, r3) =>
+                            match skip_ws r3 with
+                            | sep :: r4 =>
+                                if sep =? 44 then
+                                  match parse_members m r4 with
+                                  | Some (xs, r5) => Some ((k, x) :: xs, r5)
+                                  | None => None
+                                  end
+                                else if sep =? 125 then Some ([(k, x)], r4)
+                                else None
+                            | [] => None
+                            end
+                        | None => None
                         end
-                    | None => None
-                    end
-                | _ => None
-                end
-            | None => None
-            end
-        | _ => None
+                      else None
+                  | [] => None
+                  end
+              | None => None
+              end
+            else None
+        | [] => None
         end
     end.
 End Loops.
 
 (** [fuel] bounds the nesting depth, [len] >= length of the whole text *)
+Definition starts_with (c : N) (i : str) : bool := match i with x :: _ => x =? c | [] => false end.
+
 Fixpoint parse_value (len : nat) (fuel : nat) (i : str) : option (json * str) :=
   match fuel with
   | O => None
   | S fu =>
       match skip_ws i with
-      | 34 :: r => match parse_chars len r with Some (x, r') => Some (JStr x, r') | None => None end
-      | 91 :: r =>
-          match skip_ws r with
-          | 93 :: r' => Some (JArr [], r')
-          | _ => match parse_elems (parse_value len fu) len r with
+      | [] => None
+      | (c :: r) as i' =>
+          if c =? 34 then
+            match parse_chars len r with Some (x, r') => Some (JStr x, r') | None => None end
+          else if c =? 91 then
+            if starts_with 93 (skip_ws r) then Some (JArr [], tl (skip_ws r))
+            else match parse_elems (parse_value len fu) len r with
                  | Some (xs, r') => Some (JArr xs, r')
                  | None => None
                  end
-          end
-      | 123 :: r =>
-          match skip_ws r with
-          | 125 :: r' => Some (JObj [], r')
-          | _ => match parse_members (parse_value len fu) len len r with
+          else if c =? 123 then
+            if starts_with 125 (skip_ws r) then Some (JObj [], tl (skip_ws r))
+            else match parse_members (parse_value len fu) len len r with
                  | Some (xs, r') => Some (JObj xs, r')
                  | None => None
                  end
-          end
-      | (c :: _) as i' =>
-          match strip_prefix lit_true i', strip_prefix lit_false i', strip_prefix lit_null i' with
-          | Some r, _, _ => Some (JBool true, r)
-          | _, Some r, _ => Some (JBool false, r)
-          | _, _, Some r => Some (JNull, r)
-          | _, _, _ =>
-              if ((48 <=? c) && (c <=? 57)) || (c =? 45) then
-                let (l, r) := span_num i' in Some (JNum l, r)
-              else None
-          end
-      | [] => None
+          else
+            match strip_prefix lit_true i', strip_prefix lit_false i', strip_prefix lit_null i' with
+            | Some r', _, _ => Some (JBool true, r')
+            | _, Some r', _ => Some (JBool false, r')
+            | _, _, Some r' => Some (JNull, r')
+            | _, _, _ =>
+                if ((48 <=? c) && (c <=? 57)) || (c =? 45) then
+                  let (l, r') := span_num i' in Some (JNum l, r')
+                else None
+            end
       end
   end.
 
